@@ -3,6 +3,7 @@ package props
 import (
 	"bytes"
 	"math/big"
+	"strings"
 
 	"github.com/DOSNetwork/core/group/bn256"
 	"github.com/dedis/kyber"
@@ -206,7 +207,7 @@ func genC10(rng *hx.Rng, tier string, w *hx.Writer) error {
 			a := rng.BigBelow(q)
 			pairs = append(pairs, [2]*big.Int{a, rng.BigBelow(q)})
 			pairs = append(pairs, [2]*big.Int{a, new(big.Int).Sub(q, a)}) // P + (-P)
-			pairs = append(pairs, [2]*big.Int{a, a})                       // P + P
+			pairs = append(pairs, [2]*big.Int{a, a})                      // P + P
 			pairs = append(pairs, [2]*big.Int{a, big.NewInt(0)})
 			pairs = append(pairs, [2]*big.Int{big.NewInt(0), a})
 		}
@@ -447,6 +448,60 @@ func genC10(rng *hx.Rng, tier string, w *hx.Writer) error {
 			oracle = hx.Fail("gt-exp-wrong", "g^k in GT differs from g^(k mod q)")
 		}
 		w.Put(hx.Case{Entry: "bn", Op: 22, Args: hx.L(hx.Z(k)), Impl: hx.B(got), Oracle: oracle, Tags: []string{"gt-exp", "nt"}})
+	}
+	// group elements are values: a copy (Clone) keeps its value when the original is updated in place,
+	// and the identity stays the identity after a point obtained from Null() has been used as an
+	// accumulator - in G1, G2 and GT
+	for it := 0; it < 3; it++ {
+		for gi, g := range []kyber.Group{Bn.G1(), Bn.G2(), Bn.GT()} {
+			gname := []string{"G1", "G2", "GT"}[gi]
+			a := Sc(Bn.G1(), new(big.Int).Add(rng.BigBelow(new(big.Int).Sub(q, big.NewInt(2))), big.NewInt(1)), q)
+			b := Sc(Bn.G1(), new(big.Int).Add(rng.BigBelow(new(big.Int).Sub(q, big.NewInt(2))), big.NewInt(1)), q)
+			res := hx.Catch(func() string {
+				var problems []string
+				P := g.Point().Mul(a, nil)
+				Q := g.Point().Mul(b, nil)
+				before := PtBytes(g.Point().Mul(a, nil))
+				cl := P.Clone()
+				switch it {
+				case 0:
+					P.Add(P, Q)
+				case 1:
+					P.Neg(P)
+				default:
+					P.Mul(b, P)
+				}
+				if !bytes.Equal(PtBytes(cl), before) {
+					problems = append(problems, "a clone changed when the original was updated in place")
+				}
+				cl2 := P.Clone()
+				after := PtBytes(P)
+				cl2.Add(cl2, Q)
+				if !bytes.Equal(PtBytes(P), after) {
+					problems = append(problems, "the original changed when its clone was updated in place")
+				}
+				// accumulators started from the identity
+				acc1 := g.Point().Null()
+				acc1.Add(acc1, Q)
+				acc2 := g.Point().Null()
+				acc2.Add(acc2, g.Point().Mul(a, nil))
+				if !bytes.Equal(PtBytes(acc1), PtBytes(Q)) || !bytes.Equal(PtBytes(acc2), before) {
+					problems = append(problems, "identity + x is not x for a second accumulator")
+				}
+				X := g.Point().Mul(a, nil)
+				if !g.Point().Add(X, g.Point().Null()).Equal(X) || !g.Point().Sub(X, X).Equal(g.Point().Null()) {
+					problems = append(problems, "after accumulations Null() is no longer the identity")
+				}
+				return hx.B([]byte(strings.Join(problems, "; ")))
+			})
+			oracle := "ok"
+			if res == hx.P {
+				oracle = hx.Fail("group-law-wrong", gname+": panic in clone / identity use: "+hx.LastPanic)
+			} else if res != hx.B(nil) {
+				oracle = hx.Fail("group-law-wrong", gname+": group elements do not behave as values: "+res)
+			}
+			w.Put(hx.Case{Entry: "-", Op: 0, Args: hx.L(hx.Zi(gi), hx.Zi(it)), Impl: res, Oracle: oracle, Tags: []string{"values-" + gname, "nt"}})
+		}
 	}
 	return nil
 }
